@@ -4,6 +4,28 @@ var realAll = []string{"all go-typ/typ code (rewritten copy of the current worki
 var modelledAll = []string{"which goroutine runs next (one decision per synchronisation operation)", "when a blocked operation wakes", "unbuffered rendezvous hand-off (FIFO, as the runtime does)", "select choice among ready cases", "virtual clock and timers", "map iteration order"}
 
 func init() {
+	reg(&propInfo{ID: "C17", Tier: "S", QuickRuns: 1500000, ThorRuns: 30000000, RaceShare: 0.25,
+		Faults: []string{"preempt"},
+		Real:   []string{"sync2/once.go (rewritten copy of the current working tree)", "Go compiler, memory model, race detector", "effects of the atomic flag and the mutex inside Once"},
+		Modelled: []string{"which goroutine runs next", "mutex blocking and wake-up"}, Stubbed: []string{"sync.Once: re-implemented in verif/sim/ssync with the standard algorithm over the simulated mutex and atomic, so that callers can be interleaved inside it"},
+		Rule: "each run = 2-6 tasks calling Do on one Once1/Once2/Once3 with different functions (some arriving late, some calling again), each function containing 0-3 scheduling points before its final plain write; distinct = distinct hash of the step sequence; non-trivial = at least one preemption inside a Do call",
+		Assume: []string{"the Once re-implementation is the standard library's algorithm", "a break that bypasses once.Do with a plain flag is visible to the race detector, one with no synchronisation at all through the scheduling points inside the action", "bounds: <=6 callers, <=3 inner points"}})
+	reg(&propInfo{ID: "C18", Tier: "S", QuickRuns: 1500000, ThorRuns: 30000000, RaceShare: 0.25,
+		Faults: []string{"preempt", "pool_miss", "pool_drop", "pool_reorder"},
+		Real:   []string{"sync2/atomicvalue.go, sync2/pool.go (rewritten copy of the current working tree)", "atomic.Value operations (real, after one scheduling point each)", "Go compiler, memory model, race detector"},
+		Modelled: []string{"which goroutine runs next"}, Stubbed: []string{"sync.Pool: replaced by a stub whose legal freedoms (miss, drop a Put, return any pooled item) are scheduler draws; it publishes the same Put->Get happens-before edge the real pool does"},
+		Rule: "each run = either 2-4 tasks x 1-5 Load/Store/Swap/CompareAndSwap calls on one AtomicValue[int|string|struct] with unique values, or 2-4 tasks x 1-3 Get/use/Put cycles on one Pool with or without New and 0-2 pre-pooled tokens; distinct = distinct hash of the step sequence; non-trivial = at least one preemption inside an API call",
+		Assume: []string{"porcupine v1.3.0 (register model; CompareAndSwap before the first Store left unconstrained, as the statement starts 'once a value has been stored')", "the Pool stub may do whatever sync.Pool documents it may do and nothing else", "bounds: <=4 tasks, <=5 calls each"}})
+	reg(&propInfo{ID: "C09", Tier: "S", QuickRuns: 1000000, ThorRuns: 20000000, RaceShare: 0.25,
+		Faults: []string{"preempt", "holder_stall", "map_order"},
+		Real:   realAll, Modelled: modelledAll, Stubbed: []string{"none used by this property"},
+		Rule:   "each run = one generated scenario (KeyedMutex or KeyedRWMutex, 1-3 keys, 2-4 tasks x 1-3 critical sections entered by Lock/TryLock/RLock/TryRLock, optionally nested in key order, optionally a second phase after ClearKey, optionally one holder that stalls forever inside its section) under one seeded schedule; distinct = distinct hash of the step sequence; non-trivial = at least one preemption inside an API call",
+		Assume: []string{"DRF-SC at synchronisation-operation granularity; mutual exclusion is witnessed by harness counters in plain builds and by an unsynchronised shared variable under the race detector in race builds", "ClearKey is exercised only between phases, when no task holds or awaits any key, as the statement restricts", "bounds: <=4 tasks, <=3 sections each (+1 nested), <=3 keys"}})
+	reg(&propInfo{ID: "C05", Tier: "S", QuickRuns: 500000, ThorRuns: 10000000, RaceShare: 0.25,
+		Faults: []string{"preempt", "map_order"},
+		Real:   realAll, Modelled: modelledAll, Stubbed: []string{"none used by this property"},
+		Rule:   "each run = one generated scenario (sequential prefix, 2-8 client tasks x 1-4 calls of Add/Remove/Has/AddSet/RemoveSet/Len over a universe of <=4 values, then a checker) under one seeded schedule; distinct = distinct hash of the step sequence; non-trivial = at least one preemption inside an API call",
+		Assume: []string{"DRF-SC at synchronisation-operation granularity, with race freedom checked in the same runs", "porcupine v1.3.0", "composite calls are decomposed per element over the whole call interval; when more than 4000 outcome assignments would have to be tried the count clause of that run is skipped and counted (oracle.composite_search_capped)", "bounds: <=8 tasks, <=4 calls each, <=4 values"}})
 	reg(&propInfo{ID: "C04", Tier: "S", QuickRuns: 1000000, ThorRuns: 20000000, RaceShare: 0.25,
 		Faults: []string{"preempt", "map_order"},
 		Real:   realAll, Modelled: modelledAll, Stubbed: []string{"none used by this property"},
